@@ -505,6 +505,9 @@ def r_shape_safety(repo, rep, mod, fn, R, typed_params=None):
         trace = []
         uni_facts = {}
         for e in st.events:
+            e_orig = e
+            if e[0] == 'in-comp':
+                e = e[1:]       # a read made while a loop that was folded into a comprehension builds its element
             if e[0] == 'branch':
                 trace.append((e[1], e[2]))
                 c = e[1]
@@ -526,7 +529,7 @@ def r_shape_safety(repo, rep, mod, fn, R, typed_params=None):
                 if typed_params is not None and root not in typed_params:
                     continue
                 need = 'functor' if attr in FUNCTOR_ATTRS else 'atom'
-                guards = flatten_guards(list(trace) + list(guards_of(st, e)))
+                guards = flatten_guards(list(trace) + list(guards_of(st, e)) + (list(guards_of(st, e_orig)) if e_orig is not e else []))
                 n += 1
                 facts = dict(uni_facts)
                 for g, pol in guards:
